@@ -42,6 +42,7 @@ type PackRun struct {
 	PipeCap   int               `json:"pipe_cap,omitempty"`
 	PipeBreak int               `json:"pipe_break,omitempty"`
 	Chunks    []int             `json:"chunks,omitempty"` // reader / pipe chunking on the Unpack side
+	RtAlias   bool              `json:"rt_alias,omitempty"` // the round-trip destination is spelled through a symlinked path component
 }
 
 type Scenario struct {
